@@ -185,11 +185,19 @@ func childEnv(mode, backend string, start, max int) []string {
 		fmt.Sprintf("VERIF_C13_START=%d", start), fmt.Sprintf("VERIF_C13_MAX=%d", max)}
 }
 
-func (co *coordinator) enumChain(def *backendDef, limit time.Duration) {
+// enumChain runs the sites idx of def with idx % n == k (n <= 1: all of them) in a chain of
+// child processes.  Expensive backends are split into n chains that run in parallel.
+func (co *coordinator) enumChain(def *backendDef, limit time.Duration, k, n int) {
 	r := co.r
 	start, deaths, confirms := 0, 0, 0
+	slice := func(env []string) []string {
+		if n > 1 {
+			env = append(env, fmt.Sprintf("VERIF_C13_SLICE=%d/%d", k, n))
+		}
+		return env
+	}
 	for round := 0; round < 2000; round++ {
-		out, code, timedOut := runChild(childEnv("enum", def.Name, start, 0), limit)
+		out, code, timedOut := runChild(slice(childEnv("enum", def.Name, start, 0)), limit)
 		p := parseChild(out)
 		var hangs []record
 		for _, rc := range p.recs {
@@ -202,7 +210,7 @@ func (co *coordinator) enumChain(def *backendDef, limit time.Duration) {
 				continue
 			}
 			confirms++
-			out2, _, _ := runChild(childEnv("enum", def.Name, hv.Site, 1), limit)
+			out2, _, _ := runChild(slice(childEnv("enum", def.Name, hv.Site, 1)), limit)
 			again := false
 			for _, rc := range parseChild(out2).recs {
 				if rc.T == "viol" && rc.Hang && rc.Sig == hv.Sig {
@@ -427,6 +435,16 @@ func run(r *ev.Run) {
 	if r.Thorough() {
 		limit = 600 * time.Second
 	}
+	addEnum := func(d *backendDef) {
+		n := d.Slices
+		if n < 1 {
+			n = 1
+		}
+		for k := 0; k < n; k++ {
+			k := k
+			jobs = append(jobs, func() { co.enumChain(d, limit, k, n) })
+		}
+	}
 	for _, d := range defs {
 		d := d
 		if only != "" {
@@ -442,13 +460,13 @@ func run(r *ev.Run) {
 			if i := strings.IndexByte(only, '#'); i < 0 || only[:i] != d.Name {
 				continue
 			}
-			jobs = append(jobs, func() { co.enumChain(d, limit) })
+			addEnum(d)
 			continue
 		}
 		if d.Gate > 0 {
 			jobs = append(jobs, func() { co.gateChain(d) })
 		}
-		jobs = append(jobs, func() { co.enumChain(d, limit) })
+		addEnum(d)
 	}
 	if only == "" || strings.HasPrefix(only, "tmpfs:") {
 		for _, n := range []string{"diskpacked", "files"} {
